@@ -124,6 +124,19 @@ class Ref:
 
 
 # ---------------------------------------------------------------------------------------- alphabets
+def overshoot_box(g, ft, lo=3, hi=4000):
+    """smallest integer box size for which, in the position dtype, a particle at the value Box with a half-cell offset
+    has a grid coordinate that ROUNDS ABOVE the half-cell edge g + 1/2 when it is formed as (pos + offset) * (g / box)
+    (the product of two rounded factors; the exact value is g + 1/2).  Pure float arithmetic on the inputs - the box
+    is an element of the alphabet chosen for its rounding behaviour, like the +-1 ulp neighbours."""
+    for b in range(lo, hi):
+        box = float(b)
+        off = ft(box / g * 0.5)
+        if (ft(box) + off) * ft(g / box) > g + 0.5:
+            return box
+    return None
+
+
 def _nbrs(p, n, ft):
     up = p
     dn = p
